@@ -338,7 +338,7 @@ theorem h2hFill_eq_h2h (p : Profile) (a b : Cand) (hc : p.cands.Nodup) (hab : a 
     (hrn : ∀ bl ∈ p.ballots, bl.ranking.flatten.Nodup)
     (hrs : ∀ bl ∈ p.ballots, ∀ c ∈ bl.ranking.flatten, c ∈ p.cands)
     (hlen : ∀ bl ∈ p.ballots, bl.ranking.length = bl.ranking.flatten.length) :
-    h2hFill p a b = h2h p a b := by
+    h2hFill p a b = h2hFlat p a b := by
   have hform : h2hFill p a b =
       rsum ((p.ballots.flatMap (fillBallot p.cands)).map (fun rw => cshare rw.1 a b * rw.2)) := by
     unfold h2hFill
@@ -347,7 +347,7 @@ theorem h2hFill_eq_h2h (p : Profile) (a b : Cand) (hc : p.cands.Nodup) (hab : a 
     intro rw _
     exact fill_term rw.1 rw.2 a b
   rw [hform]
-  unfold h2h
+  unfold h2hFlat
   generalize hbs : p.ballots = bs at hrn hrs hlen
   clear hbs
   induction bs with
